@@ -29,6 +29,9 @@
 
 #include <symengine/symengine_config.h>
 #include <symengine/symengine_exception.h>
+#if defined(SYMENGINE_VERIF)
+#include <symengine/symengine_verif.h>
+#endif
 
 #ifdef WITH_SYMENGINE_THREAD_SAFE
 #include <atomic>
@@ -116,11 +119,23 @@ public:
         return type_code_;
     };
 #endif
+#if defined(SYMENGINE_VERIF)
+    // Monitoring build: count live objects (see symengine_verif.h)
+    Basic() : hash_{0}
+    {
+        verif::basic_created()++;
+    }
+    virtual ~Basic()
+    {
+        verif::basic_destroyed()++;
+    }
+#else
     //! Constructor
     Basic() : hash_{0} {}
     // Destructor must be explicitly defined as virtual here to avoid problems
     // with undefined behavior while deallocating derived classes.
     virtual ~Basic() {}
+#endif
 
     //! Delete the copy constructor and assignment
     Basic(const Basic &) = delete;
